@@ -45,6 +45,9 @@ def _sender_impls(P, module):
 
 def rule_b(ctx):
     P = ctx.prog
+    from . import inventory, mustpass
+    inventory.check_awaits(ctx, ["nexosim/src/ports/output/sender.rs", "nexosim/src/ports/source/sender.rs"])
+    mustpass.check(ctx, ["senders-create-channel-send", "senders-await-channel-send"])
     for module, floor in (("output", 9), ("source", 6)):
         impls = _sender_impls(P, module)
         ctx.ob("floor|%s-sender-impls" % module, len(impls) >= floor, "expected >= %d Sender implementations in ports::%s::sender (found %d)" % (floor, module, len(impls)), sorted(impls))
@@ -71,13 +74,18 @@ def rule_b(ctx):
                 rets = []
                 if send is not None:
                     rets = K.ret_assigns(send)
+                    ok = bool(rets)
+                    # *every* result of send is the Option::map of the filter's own result (an added `return None` drops the message -
+                    # and, for a dropped mailbox, the SendError that becomes NoRecipient)
                     for r in rets:
+                        good = False
                         if r.is_term and r.callee == "std::option::Option::map":
                             fo = send.origins(r.args()[0], r)
                             if fo and all(x[0] == "call" and x[2] in ("std::ops::Fn::call", "std::ops::FnMut::call_mut") for x in fo):
                                 co = send.origins(r.args()[1], r)
                                 if any(x[0] == "agg" and x[3] and sends and sends[0].body.name.startswith(x[3]) for x in co):
-                                    ok = True
+                                    good = True
+                        ok = ok and good
                 ctx.ob("filter-skips-iff-none|%s" % ty, ok, "a filter_map connection sends nothing exactly when the filter returned None (Option::map over the filter result)", rets)
             else:
                 send = P.body("<%s as %s>::send" % (ty, tr)) or P.body("<%s as %s>::send_owned" % (ty, tr))
